@@ -251,7 +251,16 @@ def f39():
     return True if abs(C(u) - A(u) * B(u)) < 1e-12 else C(u)
 
 
-for name, fn in (("F36", f36), ("F37", f37), ("F38", f38), ("F39", f39)):
+def f40():
+    """C08: A @ B on different knot vectors (shape error / silently wrong before 7c3b050)"""
+    A3 = Curve([F(0), F(0), F(1, 2), F(1), F(1)], np.array([[F(1), F(2)], [F(3), F(-1)], [F(0), F(4)]], dtype=object))
+    B = Curve([F(0), F(0), F(0), F(1), F(1), F(1)], np.array([[F(1), F(0)], [F(2), F(5)], [F(-3), F(1)]], dtype=object))
+    C = A3 @ B
+    bad = [u for u in (F(0), F(1, 3), F(1, 2), F(3, 4), F(1)) if C(u) != A3(u) @ B(u)]
+    return True if not bad else f"(A@B)(u) != A(u)@B(u) at {bad}"
+
+
+for name, fn in (("F36", f36), ("F37", f37), ("F38", f38), ("F39", f39), ("F40", f40)):
     if len(sys.argv) > 1 and name not in sys.argv[1:]:
         continue
     t(name, fn)
